@@ -600,6 +600,17 @@ def cutoff_knife_edge(case, tol=1e-9):
     return False
 
 
+def start_tie(case):
+    """two start candidates (edges, or nodes in node mode) at exactly the same distance from the first observation"""
+    g = case['graph']
+    p = case['trace'][0]
+    if case['cfg'].get('only_edges', True) or case['cfg']['family'] == 'distance':
+        ds = sorted(O.nearest(p, pa, g[b][0])[0] for a, (pa, nb) in g.items() for b in nb if b in g and b != a)
+    else:
+        ds = sorted(O.dist(p, v[0]) for v in g.values())
+    return any(x == y for x, y in zip(ds, ds[1:]))
+
+
 def case_C16(seed):
     rnd = _rnd(seed, 'C16')
     case = U.gen_case(rnd)
@@ -621,7 +632,8 @@ def case_C16(seed):
             break
         b = U.canon(mt2, res2)
         # translation and scaling are exact for + - * / sqrt but not for scipy's logpdf / log: rounding-level tolerance
-        tol = 1e-9 if kind in ('translate', 'scale') else 1e-12
+        # (a translation by 2^20 leaves ~2e-10 absolute rounding in projected positions: 1e-6 relative on probabilities)
+        tol = 1e-6 if kind == 'translate' else (1e-9 if kind == 'scale' else 1e-12)
         same_path = True
         if kind == 'relabel':
             mpx = c2['relabel']
@@ -644,6 +656,11 @@ def case_C16(seed):
             differs = False
         if differs:
             key = f'C16:{kind}-changes-result'
+            if kind == 'relabel' and not (a['idx'] == b['idx'] and close(a['best'], b['best'], tol, tol)) and \
+                    case['cfg'].get('non_emitting_states') and case['cfg'].get('max_lattice_width') and start_tie(case):
+                # label order decides among start candidates tied in distance (F9c); with non-emitting states AND a width the
+                # order-dependent heuristics of the non-emitting search can amplify that into a different result
+                key = 'C16:relabel-changes-result:tied-start-candidates+non-emitting+width'
             if kind == 'relabel' and a['idx'] == b['idx'] and close(a['best'], b['best'], tol, tol):
                 # index and probabilities agree, the two paths are equally probable: the tie was broken by label order
                 key = 'C16:relabel-exact-tie-broken-by-label-order'
